@@ -323,7 +323,7 @@ package fzf
 // prefix of the field (its first character stays where it was, so character offsets computed for the field
 // remain valid).
 //@ func StripLastDelimiter
-//@ property C10
+//@ property C10 C07
 //@ ensures result.arr == str.arr && result.off == str.off && len(result) <= len(str)
 
 //@ func JoinTokens
